@@ -556,6 +556,10 @@ func runCase(root string, in *inCase, imp *packagesImporter) (res outCase) {
 		relbase = dir
 	case "root":
 		relbase = root
+	case "sub": // a directory below the package: names start with ../..
+		relbase = filepath.Join(dir, "gen", "deep")
+	case "sib": // a directory beside the package
+		relbase = filepath.Join(root, "zz", "y")
 	}
 	c := &conv{fset: fset, fileIdx: map[string]int{}, funcG: map[string]int{}, first: map[string]string{}, shape: map[string]int{}}
 	for i, p := range paths {
